@@ -33,7 +33,7 @@ ASSUMPTIONS = [
     "source text of an element = ast.get_source_segment (parentheses around an element are not part of it)",
 ]
 
-HAND = [("0+1", "1"), ("int('2')", "2"), ("'a' 'b'", "'ab'"), ("(3)", "3"), ("2*2", "4"), ("len('xxxxx')", "5"), ("-(-6)", "6"), ("'x'.upper()", "'X'"), ("7", "7"), ("'plain'", "'plain'"), ("1+1+6", "8"), ("[0+9][0]", "9"), ("None", "None"), ("1.5*2", "3.0"), ("b'q' b'r'", "b'qr'")]
+HAND = [("0+1", "1"), ("int('2')", "2"), ("'a' 'b'", "'ab'"), ("(3)", "3"), ("2*2", "4"), ("len('xxxxx')", "5"), ("-(-6)", "6"), ("'x'.upper()", "'X'"), ("7", "7"), ("'plain'", "'plain'"), ("1+1+6", "8"), ("[0+9][0]", "9"), ("None", "None"), ("1.5*2", "3.0"), ("b'q' b'r'", "b'qr'"), ("(\n0+10\n)", "10"), ("(  # why\n    11 + 0\n)", "11"), ("(12\n)", "12"), ("(\n'k' 'l')", "'kl'")]
 FRESH = ["100", "'new'", "101", "[1, 2]", "{'z': 1}", "None", "(1, 2)", "-5", "'ab'", "3"]
 
 
